@@ -226,22 +226,83 @@ func (w *churnWorld) quiescentCheck(s *dsim.Sim) *dsim.Violation {
 		}
 	}
 	// calls ended by the relay on its own must carry the replaced error
-	for _, l := range w.rw.Listens {
+	for i, l := range w.rw.Listens {
 		if l.St.SrvDone && !l.Closed && l.St.Alive() {
 			s.Count("probe:listen-ended-by-relay")
 			if !errors.Is(l.St.SrvErr, signaling.ErrUserpedListen) {
 				return &dsim.Violation{Property: "C25", Rule: "listen-ended-without-replaced-error", Witness: "unexpected-end",
 					Detail: fmt.Sprintf("%s ended by the relay with %v", l.St.Name, l.St.SrvErr)}
 			}
+			_ = i
 		}
 	}
-	for _, c := range w.rw.Calls {
+	for i, c := range w.rw.Calls {
 		if c.St.SrvDone && !c.Closed && c.St.Alive() {
 			s.Count("probe:session-ended-by-relay")
 			if !errors.Is(c.St.SrvErr, signaling.ErrUserpedSession) {
 				return &dsim.Violation{Property: "C25", Rule: "session-ended-without-replaced-error", Witness: "unexpected-end",
 					Detail: fmt.Sprintf("%s ended by the relay with %v", c.St.Name, c.St.SrvErr)}
 			}
+			_ = i
+		}
+	}
+	// Only a call that a later-registered call of the same peer (pair) replaced may end with
+	// the replaced error; the call that registered last never does. Registration happens
+	// somewhere between "handler started" and "handler returned", so: a group of calls is
+	// inconsistent if some call ended "replaced" and no call that did NOT end that way can
+	// have been the last to register (each such call had returned before another one started).
+	groups := map[string][]*sig.Stream{}
+	replaced := map[*sig.Stream]bool{}
+	for _, l := range w.rw.Listens {
+		if l.St.StartSeq == 0 {
+			continue
+		}
+		k := "listen " + l.P.Name
+		groups[k] = append(groups[k], l.St)
+		if l.St.SrvDone && errors.Is(l.St.SrvErr, signaling.ErrUserpedListen) {
+			replaced[l.St] = true
+		}
+	}
+	for _, c := range w.rw.Calls {
+		if c.St.StartSeq == 0 {
+			continue
+		}
+		k := "session " + c.P.Name + ">" + c.To.Name
+		groups[k] = append(groups[k], c.St)
+		if c.St.SrvDone && errors.Is(c.St.SrvErr, signaling.ErrUserpedSession) {
+			replaced[c.St] = true
+		}
+	}
+	gks := make([]string, 0, len(groups))
+	for k := range groups {
+		gks = append(gks, k)
+	}
+	sort.Strings(gks)
+	for _, k := range gks {
+		g := groups[k]
+		anyReplaced, lastPossible := false, false
+		for _, z := range g {
+			if replaced[z] {
+				anyReplaced = true
+				continue
+			}
+			canBeLast := true
+			for _, o := range g {
+				if o != z && z.SrvDone && o.StartSeq > z.DoneSeq {
+					canBeLast = false
+				}
+			}
+			if canBeLast {
+				lastPossible = true
+			}
+		}
+		if anyReplaced && !lastPossible {
+			names := ""
+			for _, z := range g {
+				names += fmt.Sprintf("%s[start=%d done=%d replaced=%v] ", z.Name, z.StartSeq, z.DoneSeq, replaced[z])
+			}
+			return &dsim.Violation{Property: "C25", Rule: "replaced-error-without-replacement", Witness: strings.Fields(k)[0],
+				Detail: fmt.Sprintf("%s calls: some ended with the replaced error but none of the others can have registered last: %s", k, names)}
 		}
 	}
 	return nil
